@@ -108,19 +108,21 @@ func (c *LRUCache) Put(key uint64, bm *roaring.Bitmap) {
 	if elem, ok := c.entries[key]; ok {
 		c.lruList.MoveToFront(elem)
 		item := elem.Value.(*lruCacheItem)
+		c.curSize -= item.size
 		item.bm = bm
-		return
+		item.size = bm.GetSizeInBytes()
+		c.curSize += item.size
+	} else {
+		item := &lruCacheItem{
+			key:  key,
+			size: bm.GetSizeInBytes(),
+			bm:   bm,
+		}
+
+		c.entries[key] = c.lruList.PushFront(item)
+
+		c.curSize += item.size + uint64(lruCacheItemSize) + uint64(listElementSize)
 	}
-
-	item := &lruCacheItem{
-		key:  key,
-		size: bm.GetSizeInBytes(),
-		bm:   bm,
-	}
-
-	c.entries[key] = c.lruList.PushFront(item)
-
-	c.curSize += item.size + uint64(lruCacheItemSize) + uint64(listElementSize)
 
 	for c.curSize > c.maxSize && c.lruList.Len() > 0 {
 		item := c.lruList.Remove(c.lruList.Back()).(*lruCacheItem)
